@@ -1,6 +1,9 @@
 (* Correspondence evaluators for C01.
 
-   One case = one synthetic module on which the real Execute ran with 1-3 scripted generators.
+   One case = one Execute call with 1-3 scripted generators over one synthetic module — or over two modules
+   (entrypoints in a main module and in a second module reached through a replace directive): a list of
+   package-cases [pcase], one per target package, each with the formatter tables of ITS module
+   (language version and module path of the go.mod the package lies under).
    [mismatches]: the model (Model/GenFile.v, repaired code: fixed = true) against what was observed —
      the fragments each Render call wrote, and the bytes of every <base>.<gen>.go.  The formatter
      variables of the model are instantiated by finite tables filled by the harness from an INDEPENDENT
@@ -30,12 +33,17 @@ Record gcase := mk_gen {
   g_gofumpt : option bytes         (* gofumpt Source of it, module's language version and path *)
 }.
 
-Record case := mk_case {
+(* transport only: a run of n copies of u (case files carry very long source lines run-length encoded) *)
+Definition rp (n : N) (u : bytes) : bytes := N.iter n (fun acc => u ++ acc) [].
+
+Record pcase := mk_case {
   c_pkg : bytes;                   (* name of the target package *)
   c_base : bytes;                  (* OutputFileBaseName *)
   c_err : bool;                    (* Execute returned an error *)
   c_gens : list gcase
 }.
+
+Definition case := list pcase.
 
 Definition obytes_eqb := option_eqb bytes_eqb.
 
@@ -49,21 +57,21 @@ Fixpoint tbl_get (t : list (bytes * option bytes)) (k : bytes) : option bytes :=
   | (k', v) :: r => if bytes_eqb k k' then v else tbl_get r k
   end.
 
-Definition tbl1 (c : case) := map (fun g => (g_pre g, g_fmt1 g)) (c_gens c).
-Definition tbl2 (c : case) := flat_map g_fmt2 (c_gens c).
+Definition tbl1 (c : pcase) := map (fun g => (g_pre g, g_fmt1 g)) (c_gens c).
+Definition tbl2 (c : pcase) := flat_map g_fmt2 (c_gens c).
 
 Definition to_genfile (g : gcase) : genfile := mk_genfile (g_name g) (g_imports g) (g_snips g).
 
-Definition model_write (c : case) (g : gcase) : wres :=
+Definition model_write (c : pcase) (g : gcase) : wres :=
   write_file (tbl_get (tbl1 c)) (tbl_get (tbl2 c)) true (c_base c) (c_pkg c) (to_genfile g).
 
-Definition model_err (c : case) : bool :=
+Definition model_err (c : pcase) : bool :=
   match write_all (tbl_get (tbl1 c)) (tbl_get (tbl2 c)) true (c_base c) (c_pkg c) (map to_genfile (c_gens c)) [] with
   | None => true
   | Some _ => false
   end.
 
-Definition gen_mismatch (c : case) (g : gcase) : bool :=
+Definition gen_mismatch (c : pcase) (g : gcase) : bool :=
   (* Render: fragment for fragment *)
   negb (list_eqb bytes_eqb (render_all (g_snips g)) (g_frags g))
   (* the harness's classifier of the known-finding class implies the Gallina one (guard of C01_written) *)
@@ -79,12 +87,15 @@ Definition gen_mismatch (c : case) (g : gcase) : bool :=
            | WWrite n d => negb (bytes_eqb n (g_fname g)) || negb (obytes_eqb (g_file g) (Some d))
            end).
 
+(* Execute visits the packages one after the other and stops at the first error: it returns an error iff the
+   write loop of some package does *)
 Definition mismatch (c : case) : bool :=
-  negb (Bool.eqb (model_err c) (c_err c)) || existsb (gen_mismatch c) (c_gens c).
+  negb (Bool.eqb (existsb model_err c) (existsb c_err c))
+  || existsb (fun p => existsb (gen_mismatch p) (c_gens p)) c.
 
 (* ---- the property, on what the implementation wrote ---- *)
 
-Definition gen_holds (c : case) (g : gcase) : bool :=
+Definition gen_holds (c : pcase) (g : gcase) : bool :=
   match g_file g with
   | None => true
   | Some f =>
@@ -102,8 +113,10 @@ Definition gen_holds (c : case) (g : gcase) : bool :=
       && obytes_eqb (g_gofumpt g) (Some f)
   end.
 
-Definition holds (c : case) : bool :=
+Definition pholds (c : pcase) : bool :=
   if c_err c then true else forallb (gen_holds c) (c_gens c).
+
+Definition holds (c : case) : bool := forallb pholds c.
 
 Definition mismatches (cs : list case) : list nat := bad_indices mismatch cs.
 Definition violations (cs : list case) : list nat := bad_indices (fun c => negb (holds c)) cs.
